@@ -207,13 +207,15 @@ _rep("C13", "note", "Not covered: completed / per-user / incomplete connection l
 _rep("C14", "text", "a retry succeeds with the reference result.", "a retry succeeds with the reference result. Library side: DBusString replace_len / copy_len / insert_bytes on real heap strings, and header edits "
      "(set / delete field, strip unknown fields), with one failing allocation: a failed edit leaves every byte, the length and the padding as they were and succeeds on retry. Connection completion (Hello) with any "
      "single failing step leaves lists, counters, name, policy and the per-user count unchanged.")
-CLAIMS["C14"]["note"] = ("Single faults only. Message building / copying, match-rule and configuration parsing, AddMatch and routed messages under OOM are not covered (except: dispatch skeleton shows NoMemory => cancel, "
-     "never execute). Found and fixed F15, F17; known findings F8, F10, F16 (strip not atomic), F18 (Hello not atomic after completion).")
+CLAIMS["C14"]["note"] = ("Single faults only, except the append job (every combination). Appending a basic value / a descriptor to a message: descriptor accounting and temporary strings on every failure path (contents after a failed append: known finding F24). Message copying, match-rule and configuration parsing, AddMatch and routed messages under OOM are not covered (except: dispatch skeleton shows NoMemory => cancel, "
+     "never execute). Found and fixed F15, F17; known findings F8, F10, F16 (strip not atomic), F18 (Hello not atomic after completion), F20, F21, F24.")
 _rep("C15", "text", "Library receive path only: the real", "Receive path: the real")
 _rep("C15", "text", "exactly the announced number moves from the loader to the message.", "exactly the announced number moves from the loader to the message. Send path: the real do_writing sends a message's "
      "descriptors with exactly the write that starts at byte 0 and with no continuation write, for any split into partial writes. Pending-fd timer: armed exactly while descriptors are pending, never restarted while "
      "they stay pending, and its expiry closes the connection.")
-_rep("C15", "note", "message finalisers, pending-fd timeout and per-connection limit, the send path;", "message finalisers, per-connection fd limits;")
+_rep("C15", "note", "message finalisers, pending-fd timeout and per-connection limit, the send path;", "message finalisers beyond close_unix_fds, per-connection fd limits;")
+CLAIMS["C15"]["text"] += (" Sender side: the descriptor duplicated by dbus_message_iter_append_basic is recorded in the message or closed on every failure path, never closed twice, "
+     "the caller's descriptor is never closed, and the real close_unix_fds closes each held descriptor once.")
 _rep("C16", "text", "nothing is sampled.", "nothing is sampled. The public dbus_validate_* functions give the same verdicts on every C string of up to 6 bytes; the RequestName route accepts valid names up to 255 bytes.")
 _rep("C17", "text", "Sequential core only: the real pending-call machinery", "Sequential core: the real pending-call machinery")
 _rep("C17", "text", "serials are non-zero and consecutive ones distinct.", "serials are non-zero and consecutive ones distinct. Close: after nothing / a reply / a timeout / a cancel, the peer closing runs the real "
